@@ -405,6 +405,34 @@ def install_probes():
     _wrap_module_attr(m.ddmin, 'reduce', lambda o: mk_reduce(o, 'ddmin'))
     _wrap_module_attr(m.hier, 'reduce', lambda o: mk_reduce(o, 'hierarchical'))
 
+    # -- pass construction (C14: every enabled mutator is scheduled) --------------
+    def mk_passes(which):
+
+        def make(orig):
+
+            def passes(*a, **k):
+                r = orig(*a, **k)
+                rec = CTX.rec
+                if rec is not None:
+                    try:
+                        out = []
+                        for p in r:
+                            if isinstance(p, tuple):
+                                p = p[0]
+                            out.append(sorted(type(m).__name__ for m in p))
+                        rec.passes[which] = out
+                    except Exception:
+                        rec.count('probe_error.passes')
+                return r
+
+            passes.__wrapped__ = orig
+            return passes
+
+        return make
+
+    _wrap_module_attr(m.hier, 'get_passes', mk_passes('hierarchical'))
+    _wrap_module_attr(m.ddmin, 'ddmin_passes', mk_passes('ddmin'))
+
     # -- collect_information ------------------------------------------------------
     def mk_collect(orig):
 
